@@ -21,7 +21,7 @@
 #define VF_MAX_STATS    64
 #define VF_MAX_OUTCOMES 256
 #define VF_MAX_SIGS     1024
-#define VF_CASES_PER_SIG 4
+#define VF_CASES_PER_SIG 16
 #define VF_VIOL_LEN     1024
 #define VF_MAX_SAMPLES  24
 #define VF_SLOT_LEN     1024
